@@ -330,7 +330,14 @@ public:
 			Str want = "--" + b + "\r\nContent-Disposition: form-data; name=\"files\"; filename=\"" + sl->upName + "\"\r\n" +
 				"Content-Type: application/octet-stream\r\n\r\n" + sl->upContent + "\r\n--" + b + "--\r\n";
 			Str got((const char*)q.body().data(), (size_t)q.body().length());
-			ok = ok && got == want && Z(q.header("Content-Length")) == str((long long)want.size());
+			// framed by its length, or (Transfer-Encoding ending in chunked) by chunks alone
+			Str te = Z(q.header("Transfer-Encoding").toLowerCase());
+			size_t comma = te.rfind(',');
+			Str lastCoding = comma == Str::npos ? te : te.substr(comma + 1);
+			while (!lastCoding.empty() && (lastCoding[0] == ' ' || lastCoding[0] == '\t')) lastCoding.erase(0, 1);
+			while (!lastCoding.empty() && (lastCoding[lastCoding.size() - 1] == ' ' || lastCoding[lastCoding.size() - 1] == '\t')) lastCoding.erase(lastCoding.size() - 1);
+			bool framed = lastCoding == "chunked" ? !q.hasHeader("Content-Length") : Z(q.header("Content-Length")) == str((long long)want.size());
+			ok = ok && got == want && framed;
 			over["Content-Length"] = "*";
 			over["Content-Type"] = "multipart/form-data; boundary=*";
 			mark = ok ? "U1" : "U0";
